@@ -5,7 +5,7 @@ import hypothesis.strategies as st
 import numpy as np
 
 from pbt import mapping, materialize, pipeline, treemodel
-from pbt.core import Case, Violation, sandbox
+from pbt.core import Case, Violation, sandbox, quiet
 from pbt.props.c02 import parse_trace
 
 ID = 'C18'
@@ -49,6 +49,7 @@ def strategy_(draw):
                 'min_markers': draw(st.integers(1, 4)), 'normalization': 'log2CPM',
                 'rng_seed': draw(st.integers(0, 2**31 - 1)), 'tmp_dir': True, 'max_gb': 1.0, 'cloud_safe': True},
         'query_enc': draw(st.sampled_from(['csr', 'csc', 'dense'])),
+        'truncate': draw(st.integers(0, 3)) == 0,
     }
 
 
@@ -74,7 +75,19 @@ def corr(a, b):
 
 def check(spec):
     rs = spec['ref']
-    t = treemodel.Tree(rs['tree'])
+    t_full = treemodel.Tree(rs['tree'])
+    full_h = list(t_full.h)
+    truncate = bool(spec.get('truncate')) and len(full_h) >= 2 and len(rs['tree'][full_h[-2]]) >= 2     # (>=2 leaves remain)
+    if truncate:
+        # the statistics are collapsed to the hierarchy without its last level (the library's own truncation stage);
+        # the nodes of the level above become the leaves, their centroids the queries
+        tr = {'hierarchy': full_h[:-1]}
+        for lv in full_h[:-2]:
+            tr[lv] = {k: list(v) for k, v in rs['tree'][lv].items()}
+        tr[full_h[-2]] = {k: [] for k in rs['tree'][full_h[-2]]}
+        t = treemodel.Tree(tr)
+    else:
+        t = t_full
     h = t.h
     X, rows, genes, cells, _ = pipeline.expand_ref_dataset(rs)
     xl = X.astype(np.longdouble)
@@ -94,7 +107,14 @@ def check(spec):
         pipeline.write_ref_h5ad(d / 'ref.h5ad', rs)
         stage = 'statistics'
         try:
-            pipeline.run_stats(d / 'ref.h5ad', h, d / 'stats.h5', tmp, **spec['stats'])
+            if truncate:
+                from cell_type_mapper.diff_exp.truncate_precompute import truncate_precomputed_stats_file
+                pipeline.run_stats(d / 'ref.h5ad', full_h, d / 'stats_full.h5', tmp, **spec['stats'])
+                stage = 'truncation of the statistics'
+                with quiet():
+                    truncate_precomputed_stats_file(input_path=d / 'stats_full.h5', output_path=d / 'stats.h5', new_hierarchy=list(h))
+            else:
+                pipeline.run_stats(d / 'ref.h5ad', h, d / 'stats.h5', tmp, **spec['stats'])
             stage = 'reference markers'
             pipeline.run_refmarkers(d / 'stats.h5', d / 'refm.h5', tmp, **spec['refm'])
             stage = 'query marker selection'
@@ -134,6 +154,10 @@ def check(spec):
     if not o.ok:
         if len(t.children(None)) >= 2 and not root_genes:
             return Case(False, ['no_root_marker_selected'])
+        if not any(set(v) & set(qg) for k, v in lk.items() if k != 'log'):
+            # the marker stages found nothing to select for any parent (clusters not separable by the thresholds):
+            # there is nothing to map with, and the mapper says so
+            return Case(False, ['no_marker_selected_anywhere'])
         raise Violation('mapping_rejected_pipeline_files', {'error': f'{type(o.error).__name__}: {str(o.error)[:300]}'})
     cell2chunk, visits = parse_trace(o.trace)
     res = {r['cell_id']: r for r in o.out['results']}
@@ -188,8 +212,10 @@ def check(spec):
                     raise Violation('single_child_not_followed', {'centroid': lf, 'level': lv})
             parent = (lv, want)
     classes = [f'levels_{len(h)}', 'factor_1' if spec['cfg']['bootstrap_factor'] == 1.0 else 'factor_lt_1', 'ref_' + rs['dtype'], 'ref_' + rs['enc']]
-    if len(rs['tree'][h[-1]]) > 256:
+    if len(t.leaves()) > 256:
         classes.append('more_than_256_clusters')
+    if truncate:
+        classes.append('statistics_truncated_to_coarser_hierarchy')
     if skipped:
         classes.append('precondition_skips')
     return Case(checked > 0, classes, info={'node_visits_checked': checked, 'node_visits_skipped': skipped})
